@@ -1110,8 +1110,8 @@ def skymask(invvar, andmask, ormask=None, ngrow=2):
     from .. import smooth
     nrows, npix = invvar.shape
     badmask = np.zeros(invvar.shape, dtype='i4')
-    badskychi = sdss_flagval('SPPIXMASK', 'BADSKYCHI')
-    redmonster = sdss_flagval('SPPIXMASK', 'REDMONSTER')
+    badskychi = int(sdss_flagval('SPPIXMASK', 'BADSKYCHI'))
+    redmonster = int(sdss_flagval('SPPIXMASK', 'REDMONSTER'))
     # brightsky = sdss_flagval('SPPIXMASK', 'BRIGHTSKY')
     if ormask is not None:
         badmask = badmask | ((ormask & badskychi) != 0)
